@@ -278,6 +278,10 @@ async def watch_objs(
                     sock_connect=connect_timeout,
                 ),
             ):
+                # The consumer's time is not the stream's inactivity: disarm the timer while yielding,
+                # or it cancels the consumer's task in the consumer's code (bypassing this context).
+                if timeout_cm is not None:
+                    timeout_cm.reschedule(None)
                 yield raw_input
                 if timeout_cm is not None:
                     now = asyncio.get_running_loop().time()
